@@ -6,6 +6,7 @@ under D is accepted under D' with the same tree and spans."""
 import json
 import os
 import random
+import re
 
 import common
 import gen_core
@@ -96,6 +97,98 @@ def inputs(tier, s):
     return out
 
 
+FZ_BOOLS = ["def", "lambda", "load", "kwonly", "posonly", "reexport", "toplevel", "fstrings"]
+
+
+def fz_dialect(bits):
+    d = {b: bool(bits & (1 << i)) for i, b in enumerate(FZ_BOOLS)}
+    d["types"] = TYPES[(bits >> 8) % 3]
+    return d
+
+
+def fz_decode(data):
+    """The dialects and the source text a fuzz input stands for (same decoding as harness/fz/fuzz/fuzz_targets/c05.rs)."""
+    if len(data) < 4:
+        return None
+    try:
+        src = data[4:].decode("utf-8")
+    except UnicodeDecodeError:
+        return None
+    d1 = data[0] | ((data[1] % 3) << 8)
+    extra = data[2] | ((data[3] % 3) << 8)
+    d2 = ((d1 & 0xff) | (extra & 0xff)) | (max((d1 >> 8) % 3, (extra >> 8) % 3) << 8)
+    return [fz_dialect(x) for x in (0, d1, d2, 0xff | (2 << 8))], src
+
+
+def fuzz_leg(rep, s, svh, dial_of, judge, st):
+    """Coverage-guided leg (thorough): libFuzzer drives the same oracle, compiled into the fuzz target; every artifact it
+    keeps is re-judged by the ordinary runner, which alone decides (fuzzer timeouts / OOM are inconclusive)."""
+    import shutil
+    import subprocess
+    import time
+    fz = os.path.join(common.HARNESS, "fz")
+    env = dict(common.BASE_ENV)
+    env["RUSTFLAGS"] = "--cfg starlark_verif"
+    env["CARGO_TARGET_DIR"] = os.path.join(common.TARGET, "fuzz")
+    lock = os.path.join(fz, "fuzz", "Cargo.lock")
+    if not os.path.exists(lock):
+        shutil.copy(os.path.join(common.HARNESS, "Cargo.lock"), lock)
+    t0 = time.time()
+    p = subprocess.run(["cargo", "+nightly", "fuzz", "build", "c05"], cwd=fz, env=env, stdout=subprocess.PIPE, stderr=subprocess.STDOUT, text=True)
+    if p.returncode != 0:
+        rep.inconc("fuzz flavor unavailable (cargo fuzz build failed)", p.stdout[-400:])
+        return
+    log("[build] fuzz ok in %.1fs" % (time.time() - t0))
+    wd = common.workdir("c05_fuzz")
+    corpus, art = os.path.join(wd, "corpus"), os.path.join(wd, "art")
+    os.makedirs(corpus)
+    os.makedirs(art)
+    rng = random.Random("%d/c05fz" % s)
+    for i, t in enumerate(gen_tokens.CORNERS + gen_tokens.STATEMENT_FORMS + [gen_tokens.string_literal_input(rng) for _ in range(300)]):
+        b = t.encode("utf-8")[:3000]
+        with open(os.path.join(corpus, "s%04d" % i), "wb") as f:
+            f.write(bytes([rng.randrange(256), rng.randrange(3), rng.randrange(256), rng.randrange(3)]) + b)
+    seconds = int(os.environ.get("VERIF_FUZZ_SECONDS", "900"))
+    cmd = ["cargo", "+nightly", "fuzz", "run", "c05", corpus, "--", "-max_total_time=%d" % seconds, "-fork=%d" % NCPU, "-ignore_crashes=1", "-ignore_timeouts=1", "-ignore_ooms=1",
+           "-timeout=10", "-rss_limit_mb=3000", "-max_len=4096", "-seed=%d" % (s + 1), "-artifact_prefix=" + art + "/", "-print_final_stats=1"]
+    try:
+        p = subprocess.run(cmd, cwd=fz, env=env, stdout=subprocess.PIPE, stderr=subprocess.STDOUT, text=True, timeout=seconds + 1800)
+        outp = p.stdout
+    except subprocess.TimeoutExpired as e:
+        outp = (e.stdout or b"").decode("utf-8", "replace") if isinstance(e.stdout, bytes) else (e.stdout or "")
+        rep.inconc("fuzzer did not stop in time", None)
+    execs = 0
+    cov = 0
+    for line in outp.splitlines():
+        m = re.search(r"#(\d+): cov: (\d+)", line)
+        if m:
+            execs, cov = max(execs, int(m.group(1))), max(cov, int(m.group(2)))
+    arts = sorted(os.listdir(art))
+    st["fuzz"] = {"seconds": seconds, "executions_reported": execs, "edges_covered": cov, "corpus_files_at_end": len(os.listdir(corpus)), "artifacts": len(arts)}
+    cases2 = []
+    for name in arts:
+        data = open(os.path.join(art, name), "rb").read()
+        dec = fz_decode(data)
+        if dec is None or not name.startswith("crash-"):
+            rep.inconc("fuzzer artifact %s (not a crash of the oracle, or undecodable)" % name.split("-")[0], name)
+            continue
+        ds, src = dec
+        cid = "fz_" + name[:24]
+        dial_of[cid] = ds
+        cases2.append({"id": cid, "src": src, "dialects": ds, "sexp": False, "roundtrip": False})
+    if cases2:
+        b2 = common.run_cases(svh, "parse", cases2, "c05_fzjudge", shards=min(NCPU, len(cases2)), timeout=3000, per_case_timeout=60)
+        for cr in b2.crashes:
+            rep.violation("c05:" + common.crash_signature(cr), "[fuzz] parser crashed (process died) on %r" % (cr["case"]["src"][:200]), {"flavor": "dbg", "case": cr["case"], "crash": cr.get("confirm")})
+        before = len(rep.violations) + len(rep.known)
+        for c in cases2:
+            evs = b2.events.get(c["id"])
+            if evs is not None:
+                judge(c, "fuzz-artifact", c["src"], evs, "dbg")
+        if len(rep.violations) + len(rep.known) == before and not b2.crashes:
+            rep.inconc("fuzzer artifacts not reproduced by the ordinary runner", [c["id"] for c in cases2][:5])
+
+
 def run(tier):
     rep = Report("C05", tier)
     s = seed()
@@ -137,10 +230,7 @@ def run(tier):
                 rep.inconc("parse did not finish in 60 s (single observation)", inc.get("id"))
             else:
                 rep.inconc(inc["why"], inc.get("id"))
-        for c, (kind, t) in zip(cases, ins):
-            evs = batch.events.get(c["id"])
-            if evs is None:
-                continue
+        def judge(c, kind, t, evs, flavor):
             ds = dial_of[c["id"]]
             res = {}
             for e in evs:
@@ -171,6 +261,13 @@ def run(tier):
                         elif res[a] != res[b]:
                             rep.violation("c05:monotone:tree-changes", "[%s] %r parses to different trees/spans under %s and the larger dialect %s" % (flavor, t[:120], json.dumps(ds[a]), json.dumps(ds[b])),
                                           {"flavor": flavor, "src": t, "dialects": [ds[a], ds[b]]})
+
+        for c, (kind, t) in zip(cases, ins):
+            evs = batch.events.get(c["id"])
+            if evs is not None:
+                judge(c, kind, t, evs, flavor)
+        if flavor == "dbg" and tier == "thorough":
+            fuzz_leg(rep, s, svh, dial_of, judge, st)
     rep.coverage = {
         "evaluations": st["ok"] + st["err"],
         "distinct_nontrivial": len(distinct),
@@ -183,6 +280,7 @@ def run(tier):
         "ast_nodes_walked": st["nodes"],
         "monotonicity_pairs_checked": st["mono_pairs"],
         "distinct_dialects_used": len(seen_dialects),
+        "coverage_guided_leg": st.get("fuzz", "thorough tier only"),
         "flavors": flavors,
     }
     rep.assumptions = ["inputs are valid UTF-8 up to 64 KiB with nesting <= 200 (the parser is recursive; the property bounds nesting)",
